@@ -162,12 +162,15 @@ def configs(ctx):
         return [('K1', _k1(), 4, 1), ('K3', _k3(), 4, 0), ('K6', _k6(), 5, 0),
                 ('K7', _k7(), 5, 0), ('K8', _k8(), 5, 0), ('K9', _k9(), 5, 0),
                 ('K10-rack1', _k10({'rack': 1}), 4, 0),
-                ('K10-cell1', _k10({'cell': 1}), 4, 0)]
+                ('K10-cell1', _k10({'cell': 1}), 4, 0),
+                ('K10-server1', _k10({'server': 1}), 4, 0)]
     return [('K1', _k1(), 6, 1), ('K3', _k3(), 7, 0), ('K6', _k6(), 8, 0),
             ('K7', _k7(), 7, 0), ('K8', _k8(), 8, 0), ('K9', _k9(), 8, 0),
             ('K10-rack1', _k10({'rack': 1}), 6, 0),
             ('K10-pod1', _k10({'pod': 1}), 6, 0),
-            ('K10-cell1', _k10({'cell': 1}), 6, 0)]
+            ('K10-cell1', _k10({'cell': 1}), 6, 0),
+            ('K10-server1', _k10({'server': 1}), 6, 0),
+            ('K10-server2', _k10({'server': 2}), 6, 0)]
 
 
 RULE = ('BFS over histories producing capacity pressure; per cycle the queue '
